@@ -5,7 +5,8 @@ Model: the derivations of `XModel/Table.lean` (`selectRows`, `selectCols`, `copy
 immutable values: a derivation returns a new table and cannot change its argument, so "the source is
 untouched" holds by construction in the model; sharing and in-place mutation of numpy buffers is the
 run-time fact the correspondence run checks (source snapshot before / after every derivation).
-`C14_*_rect_partial`: `_t` and `Table.concatenate` are outside the model (oracle only).
+Transposition and `Table.concatenate` are in the model too (`transposeT`, `concatT`); for them the correspondence
+compares shapes (numpy renders the transposed cells, and `concatenate` lists the common columns in set order).
 -/
 namespace Properties.C14
 open TableM Cache
@@ -60,6 +61,14 @@ theorem C14_add_rect (a b : Tbl) (ha : Rect a) (hb : Rect b) (hsame : ∀ c ∈ 
 theorem C14_cols_rect (t : Tbl) (h : Rect t) (names : List String) (hn : ∀ c ∈ names, c ∈ t.colNames)
     (r : Tbl) (hr : selectCols t names = .ok r) : Rect r ∧ r.nrows = t.nrows := selectCols_rect t h names hn r hr
 
+/-- `t._t`: rectangular, one row per column of the source (the index column `columns` holds the column names) -/
+theorem C14_transpose_rect (t : Tbl) : Rect (transposeT t) ∧ (transposeT t).nrows = t.colNames.length :=
+  transposeT_rect t
+
+/-- `Table.concatenate(tables)` of rectangular tables: rectangular, the lengths add -/
+theorem C14_concat_rect (ts : List Tbl) (r : Tbl) (h : ∀ t ∈ ts, Rect t) (hr : concatT ts = .ok r) :
+    Rect r ∧ r.nrows = (ts.map (·.nrows)).sum := concatT_rect ts r h hr
+
 /-- the derivations the model covers, as one language; chains of any length stay rectangular -/
 inductive Deriv where
   | rows (ps : List Nat)
@@ -67,6 +76,8 @@ inductive Deriv where
   | copy
   | mul (k : Nat)
   | addSelf
+  | transpose
+  | concatSelf
 
 def applyDeriv (t : Tbl) : Deriv → Except TErr Tbl
   | .rows ps => if ps.all (· < t.nrows) then .ok (selectRows t ps) else .error .indexError
@@ -74,6 +85,8 @@ def applyDeriv (t : Tbl) : Deriv → Except TErr Tbl
   | .copy => .ok (copyT t)
   | .mul k => mulT t k
   | .addSelf => addT t t
+  | .transpose => .ok (transposeT t)
+  | .concatSelf => concatT [t, t]
 
 theorem C14_step_rect (t : Tbl) (h : Rect t) (d : Deriv) (r : Tbl) (hr : applyDeriv t d = .ok r) : Rect r := by
   cases d with
@@ -93,6 +106,8 @@ theorem C14_step_rect (t : Tbl) (h : Rect t) (d : Deriv) (r : Tbl) (hr : applyDe
   | copy => simp only [applyDeriv, Except.ok.injEq] at hr; subst hr; exact (copyT_rect t h).1
   | mul k => exact (mulT_rect t h k r hr).1
   | addSelf => exact (addT_rect t t h h (fun _ hc => hc) r hr).1
+  | transpose => simp only [applyDeriv, Except.ok.injEq] at hr; subst hr; exact (transposeT_rect t).1
+  | concatSelf => exact (concatT_rect [t, t] r (by intro u hu; simp at hu; rcases hu with rfl | rfl <;> exact h) hr).1
 
 /-- **every chain of derivations** that succeeds ends in a rectangular table -/
 theorem C14_chain_rect : ∀ (ds : List Deriv) (t r : Tbl), Rect t →
